@@ -41,12 +41,14 @@ ByteStep(lens, ws, max, ctx) ==
        ELSE [cs |-> ws - CountLeft(lens, ws, ctx, 0, 0), ws |-> ws, we |-> we,
              ce |-> we + CountRight(lens, we, ctx, 0, 0)]
 
+\* result: sequence of windows, with the marker FailW appended when a step fails (a record, so that it can be
+\* compared with windows without a type error)
+FailW == [fail |-> TRUE]
 RECURSIVE AllWindows(_, _, _, _, _, _)
-\* result: sequence of windows, or <<"fail">> appended when a step fails
 AllWindows(lens, kind, max, ctx, ws, acc) ==
     IF ws >= Len(lens) THEN acc
     ELSE LET w == IF kind = "char" THEN CharStep(Len(lens), ws, max, ctx) ELSE ByteStep(lens, ws, max, ctx) IN
-         IF w.we <= w.ws THEN Append(acc, "fail")
+         IF w.we <= w.ws THEN Append(acc, FailW)
          ELSE AllWindows(lens, kind, max, ctx, w.we, Append(acc, w))
 Expected(lens, kind, max, ctx) ==
     IF kind = "full" THEN <<[cs |-> 0, ws |-> 0, we |-> Len(lens), ce |-> Len(lens)]>>
